@@ -26,4 +26,19 @@ CHECKS = {
                             "garbage_input"],
         "assumptions": COMMON_ASSUMPTIONS,
     },
+    "C02": {
+        "pkg": "pkg/secretstore",
+        "test": "TestVerifC02",
+        "level": "exploration",
+        "quick": {"seconds": 25, "checks_per_proc": 300},
+        "thorough": {"seconds": 420, "checks_per_proc": 2000},
+        "rule": "one case = (window W in 1..4 or 100, group type, 1-2 senders, per sender n messages and up to 3 chain-key "
+                "announcements taken at drawn counters, an arrival schedule of message deliveries / announcement deliveries / "
+                "receiver restarts with repetitions, then a final probe of every counter twice); non-trivial = the schedule "
+                "contained a reordering, a duplicate/retry, a re-registration or a restart; distinct = distinct hash of the "
+                "abstract event trace (window, counters, outcomes), which does not depend on key material",
+        "required_probes": ["window_edge_hit", "message_before_announcement", "older_announcement_after_registration",
+                            "newer_announcement_after_registration"],
+        "assumptions": COMMON_ASSUMPTIONS,
+    },
 }
